@@ -190,6 +190,17 @@ def run(res, proof):
         for _ in range(3 if quick else 12):
             run_seq(s, names, [rng.choice(ops) for _ in range(rng.randint(4, 30))])
         res.count('strands_%d' % min(n, 5))
+    # periodic strand orders with a structure that is NOT invariant under the period: the sequence comes back after a turn by
+    # the period while the structure does not - every cached view queried before and after every turn
+    periodic = [(['a', 'b', '+', 'a', 'b'], '(.+.)'), (['a', 'b', '+', 'a', 'b', '+', 'a', 'b'], '(.+.)+..'),
+                (['a', '+', 'b', '+', 'a', '+', 'b'], '(+)+.+.'), (['a', '+', 'a', '+', 'a'], '(+)+.'), (['a', 'a', '+', 'a', 'a'], '.(+).')]
+    for names_p, s_p in periodic:
+        n_p = s_p.count('+') + 1
+        for v in VIEWS:
+            for t in range(1, n_p + 1):
+                q = 'q\th2\t%s\t' % v
+                run_seq(s_p, names_p, [q, 'set.turns\th2\t%d' % t, q, 'q\th2\tstructure\t', 'set.turns\th2\t%d' % (t + 1), q])
+    res.dist['periodic_complex_scenarios'] = len(periodic)
     res.dist['shared_input_scenarios'] = shared_inputs(iw, res)
     iw.reset()
     res.dist['op_sequences'] = nseq
